@@ -8,7 +8,7 @@ Pre(e)    == [cap |-> e.cap, pos |-> e.pos]
 CallOf(e) == Call(e.m, e.a, e.b, e.n, e.lead)
 InAlphabet(e) ==
   \/ e.m = "new"
-  \/ e.m \in Methods /\ e.cap >= 0 /\ e.pos \in 0..e.cap /\ e.n >= 0 /\ e.lead \in 0..3
+  \/ e.m \in Methods /\ e.n >= 0 /\ e.lead \in 0..3
 
 (* statement clauses first: no report, no crash; an accepted call touches only
    [0, cap) and leaves pos in 0..cap; a rejected call leaves the buffer usable
@@ -18,9 +18,11 @@ InAlphabet(e) ==
 MethodClauses(e) ==
   LET s0 == Pre(e)  res == MethodF(s0, CallOf(e)) IN
   << <<"harness-guard", InAlphabet(e)>>,
-     <<"out-of-bounds-accepted", ~(e.died = 0 /\ e.out.kind = "ok" /\ res.out.kind \in {Rd, Wr})>>,
+     <<"out-of-bounds-accepted", ~(e.died = 0 /\ e.out.kind = "ok" /\ e.cap >= 0 /\ e.pos \in 0..e.cap
+                                   /\ res.out.kind \in {Rd, Wr})>>,
      <<"sanitizer", e.san = "">>,
      <<"crash", e.died = 0>>,
+     <<"pre-state-out-of-range", e.cap >= 0 /\ e.pos \in 0..e.cap>>,      \* left behind by an earlier call
      <<"pos-out-of-range", e.pos2 \in 0..e.cap /\ e.cap2 = e.cap>>,
      <<"unusable", e.usable # 0>>,
      <<"model:outcome", e.out.kind = res.out.kind>>,
